@@ -163,7 +163,7 @@ def shrink_case(exe_r, exe_m, case, pred):
             return False
         t, vi, _ = judge(c, d[0], v[0])
         return pred(t, vi)
-    small = vf.shrink_list(lines, fails, max_steps=600)
+    small = vf.shrink_list(lines, fails, max_steps=250)
     return enc(mode, seed, world, "\n".join(small))
 
 
@@ -230,12 +230,16 @@ def run(ctx):
         if st["classes_gt1"] > 0:
             shapes.add(st["shape"])
     dist["rejected_by_wit_parser"] = n_rej
-    # ---- search-leg violations: one report per kind, shrunk
+    # ---- search-leg violations: one report per kind, shrunk (the known class is reported by its first — corpus —
+    # witness without shrinking: it shows up in a quarter of all random packages)
     seen_kinds = set()
     for c, k, text in viols:
         if k in seen_kinds:
             continue
         seen_kinds.add(k)
+        if k == "known-error":
+            ctx.violation(KNOWN_KEY, text, replay_obj(c, text))
+            continue
         small = shrink_case(exe_r, exe_m, c, lambda t, vi, k=k: any(kk == k for kk, _ in vi))
         d, v = run_lines(exe_r, exe_m, [small], shards=1)
         _, vi, _ = judge(small, d[0], v[0])
